@@ -21,7 +21,7 @@ func (c10) Rule() string {
 }
 func (c10) Assumptions() []string {
 	return []string{
-		"the client uses the documented loop: NewParquetReader; for r.Next() { r.Scan(&x) }; r.Error(); Next is not called again after it returned false",
+		"the client uses the documented loop: NewParquetReader; for r.Next() { r.Scan(&x) }; r.Error(); Next is not called again after it returned false; in half of the cases the client also calls Error() before the loop and after every row",
 		"a source that lies (wrong bytes, wrong offset from Seek without an error) is outside the property and is not simulated",
 		"reference rows = fault-free read of the same file by the same reader; files whose reference is unusable are skipped and counted",
 		"a reader that neither reports the failure nor terminates within 20x the reference's source calls counts as not reporting it (hang)",
@@ -100,6 +100,9 @@ func (p c10) Run(runseed uint64, tier string, acc *Acc) []*core.Violation {
 		}
 		for i := range faults {
 			c := &core.Case{Prop: "C10", Seed: runseed, W: f.W, SourceKind: kind, SrcFault: &faults[i]}
+			if (k+i)%2 == 1 {
+				c.ReadMode = "errcheck" // a client that also looks at Error() before the loop and after every row
+			}
 			if fragArm {
 				c.Frag = &core.Frag{Policy: "random", Seed: r.Uint64()}
 			}
@@ -154,7 +157,7 @@ func (p c10) check(c *core.Case, f *fileWL, base *core.ReadResult, baseCalls int
 		src.MaxCalls = 400000 + 400*len(f.Data)
 	}
 	limit := 2*len(base.Recs) + 16
-	rr := core.ExecReader(f.W.Shape, src.AsReadSeeker(kindOr(c.SourceKind)), limit, func(a string) { src.CurAPI = a })
+	rr := core.ExecReaderMode(f.W.Shape, src.AsReadSeeker(kindOr(c.SourceKind)), limit, func(a string) { src.CurAPI = a }, c.ReadMode)
 	phase := src.FiredAPI + "/" + src.Stats.FiredOp
 	if src.Stats.Fired == 0 {
 		phase = "nofault"
@@ -205,6 +208,11 @@ func (p c10) Shrink(c *core.Case) []*core.Case {
 	if c.Frag != nil {
 		n := *c
 		n.Frag = nil
+		out = append(out, &n)
+	}
+	if c.ReadMode != "" {
+		n := *c
+		n.ReadMode = ""
 		out = append(out, &n)
 	}
 	if ft.Sticky {
